@@ -328,9 +328,14 @@ func (c *xsyncMap) GetAndDelete(k string) (interface{}, bool) {
 		return nil, false
 	}
 	i := v.(item)
+	expired := i.expired()
 	ec := c.EvictedCallback()
 	if ec != nil {
 		ec(k, i.v)
+	}
+	if expired {
+		// the entry is removed, but it had already expired: report it as absent
+		return nil, false
 	}
 	return i.v, true
 }
